@@ -12,6 +12,7 @@ class Model:
     def __init__(self):
         self.index = {}     # key -> entry dict(integrity, size, time, metadata, raw_metadata)
         self.content = {}   # sri string -> bytes
+        self.damaged = set()  # addresses whose content file no longer holds the stored bytes
         self.foreign = {}   # (foreign key, host key) -> entry: valid records sitting in another key's bucket
 
     def clone(self):
@@ -19,15 +20,17 @@ class Model:
         m.index = copy.deepcopy(self.index)
         m.content = dict(self.content)
         m.foreign = copy.deepcopy(self.foreign)
+        m.damaged = set(self.damaged)
         return m
 
     def canon(self):
         return repr((sorted((k, _freeze(v)) for k, v in self.index.items()), sorted((s, len(b), ref.sha256hex(b)) for s, b in self.content.items()),
-                     sorted((k, _freeze(e)) for k, e in self.foreign.items())))
+                     sorted((k, _freeze(e)) for k, e in self.foreign.items()), sorted(self.damaged)))
 
     # ---- operations
     def write(self, key, sri, data, *, size, time, metadata=None, raw_metadata=None):
         self.content[sri] = data
+        self.damaged.discard(sri)  # a re-write replaces the file atomically
         if key is not None:
             self.index[key] = {"integrity": sri, "size": size, "time": time, "metadata": metadata, "raw_metadata": raw_metadata}
 
@@ -38,6 +41,7 @@ class Model:
         self.index.pop(key, None)
 
     def remove_hash(self, sri):
+        self.damaged.discard(sri)
         return self.content.pop(sri, None) is not None
 
     def remove_fully(self, key):
@@ -52,9 +56,13 @@ class Model:
     def clear(self):
         self.index = {}
         self.content = {}
+        self.damaged = set()
+        self.foreign = {}
 
 
 def _freeze(v):
+    if isinstance(v, tuple) and len(v) == 2 and all(isinstance(x, int) for x in v):
+        return "NOW"  # a wall-clock interval: abstracted like the time it brackets
     if isinstance(v, dict):
         return tuple(sorted((k, _freeze(x)) for k, x in v.items()))
     if isinstance(v, list):
@@ -147,6 +155,10 @@ def observe_and_check(ctx, res, srv, flavour, cache, model, keys, addrs, *, sig_
                 if rep.get("ok") is not (data is not None):
                     bad("%s(%s) = %s, model says %s" % (name, sri, _short(rep), data is not None), "addr:%s:wrong" % name,
                         {"obs": name, "sri": sri, "reply": rep})
+            elif sri in model.damaged:
+                if "err" not in rep:
+                    bad("%s of a damaged content file returned %s" % (name, _short(rep)), "addr:%s:damaged-but-%s" % (name, classify(rep)),
+                        {"obs": name, "sri": sri, "reply": rep})
             else:
                 if data is None:
                     if "err" not in rep:
@@ -195,6 +207,11 @@ def _check_data(bad, name, key, rep, d, want, model):
                 {"obs": name, "key": key, "reply": rep})
         return
     data = model.content.get(want["integrity"])
+    if want["integrity"] in model.damaged:
+        if "err" not in rep:
+            bad("%s(%r): content file is damaged, reply %s" % (name, key, _short(rep)), "lookup:%s:damaged-but-%s" % (name, classify(rep)),
+                {"obs": name, "key": key, "reply": rep})
+        return
     if data is None:
         if "err" not in rep:
             bad("%s(%r): content was removed, reply %s" % (name, key, _short(rep)), "lookup:%s:content-absent-but-%s" % (name, classify(rep)),
